@@ -141,4 +141,27 @@ def simJoint (o : Ops G) (isO : G → Bool) (par : Par) (mul : G → Int → Opt
     (recJsf (2 * (par.fpBits + 1)) k.natAbs m.natAbs).map fun (j0, j1) =>
       MulAlg.simJoint o (signed o k p) (signed o m q) j0 j1
 
+/-- ed_mul_sim_gen when ED_SIM == INTER, ED_FIX == LWNAF and the generator table is precomputed: ed_mul_sim_plain with the
+    generator's table (width RLC_DEPTH) for the first scalar; no early exits inside -/
+def simPlainGen (o : Ops G) (par : Par) (g : G) (k : Int) (q : G) (m : Int) : Option G :=
+  match recNaf (par.fpBits + 1) k.natAbs par.depth, recNaf (par.fpBits + 1) m.natAbs par.width with
+  | some n0, some n1 =>
+    let n0 := if k < 0 then n0.map (fun d => -d) else n0
+    let n1 := if m < 0 then n1.map (fun d => -d) else n1
+    some (MulAlg.simInter o (tabOdd o g (2 ^ (par.depth - 2))) (tabOdd o q (2 ^ (par.width - 2))) o.zero n0 n1)
+  | _, _ => none
+
+/-- ed_mul_gen: k = 0 ⇒ O, otherwise the configured fixed-base method on the generator's table -/
+def mulGen (o : Ops G) (fix : G → Int → Option G) (g : G) (k : Int) : Option G :=
+  if k = 0 then some o.zero else fix g k
+
+/-- ed_mul_sim_gen -/
+def simGen (o : Ops G) (isO : G → Bool) (mul fix : G → Int → Option G) (sim : G → Int → G → Int → Option G)
+    (plain : Option (G → Int → G → Int → Option G)) (g : G) (k : Int) (q : G) (m : Int) : Option G :=
+  if k = 0 then mul q m
+  else if m = 0 ∨ isO q then mulGen o fix g k
+  else match plain with
+    | some f => f g k q m
+    | none => sim g k q m
+
 end Relic.Model.EdMul
